@@ -1,7 +1,9 @@
-(* IndepFacts.v - the expected inventory of package-level variables of the library (C19).
-   Definitions only; compared with the regenerated Params.package_vars in IndepProofs.v. *)
-From Coq Require Import String List Bool.
-From Verif Require Import Params.
+(* IndepFacts.v - the expected inventory of package-level variables of the library (C19), and the
+   expected results of the static footprint extraction (tools/gofootprint -> ParamsFoot.v).
+   Definitions only; compared with the regenerated Params.package_vars in IndepProofs.v and with the
+   regenerated ParamsFoot tables in IndepStatic.v (compiled by ./check C19 only). *)
+From Coq Require Import String List Bool Arith.
+From Verif Require Import Params ParamsFoot Indep.
 Import ListNotations.
 
 (* ------------------------------------------------------------------------------------ *)
@@ -54,3 +56,180 @@ Definition registry_is_locked (p : String.string * String.string) : bool :=
   else true.
 
 Definition is_registry (p : String.string * String.string) : bool := String.eqb (snd p) "registry"%string.
+
+(* ------------------------------------------------------------------------------------ *)
+(* Static footprint extraction (tools/gofootprint, go/ast + go/types): expected tables   *)
+(* ------------------------------------------------------------------------------------ *)
+
+(* References that outlive a call and come from somewhere else than a fresh allocation: (where it is
+   kept, where it comes from).  Objects without state of their own (every field is the link to the
+   class: the notation, the inspector) are omitted by the tool; if notation_ gets a field again all
+   the places that keep or hand on a notation appear here.  Each entry is reviewed:
+   - an iterator keeps the Go array it is given: every caller in the library hands it a fresh copy
+     (AsArray) - the tool finds no call-level edge for that argument;
+   - a sorter keeps the ranking function it is given (Sorter.MakeWithRanker); rankers are handed down
+     catalog -> list -> array -> sorter; the collator hands its own per-call traversal copy's
+     rankValues to the sorter it makes for map keys (receiver of rankMaps);
+   - a set keeps the collator it is given; Set.And/Or/Sans/Xor hand the first operand's collator
+     (GetCollator) to the result: harmless since fix 4091d12 (CompareValues/RankValues work on a
+     per-call copy: [static_collator_shares_depth] below is false); module.Set forwards its argument;
+   - the scanner keeps the token queue of the parser that started it (a synchronised queue: C04/C05). *)
+Definition expected_shared_edges : list (String.string * String.string) := [
+  ("agent.iterator_.values_", "arg 1:values of agent.(*iteratorClass_).MakeFromArray");
+  ("agent.sorter_.ranker_", "arg 1:ranker of agent.(*sorterClass_).MakeWithRanker");
+  ("arg 1:collator of collection.(*setClass_).MakeWithCollator", "arg 1:arguments of module.Set");
+  ("arg 1:collator of collection.(*setClass_).MakeWithCollator", "result of GetCollator");
+  ("arg 1:ranker of agent.(*sorterClass_).MakeWithRanker", "arg 1:ranker of collection.(array_).SortValuesWithRanker");
+  ("arg 1:ranker of agent.(*sorterClass_).MakeWithRanker", "receiver of agent.(*collator_).rankMaps");
+  ("arg 1:ranker of collection.(*list_).SortValuesWithRanker", "arg 1:ranker of collection.(*catalog_).SortValuesWithRanker");
+  ("arg 1:ranker of collection.(*list_).SortValuesWithRanker", "arg 1:ranker of collection.(*list_).SortValuesWithRanker");
+  ("arg 1:ranker of collection.(array_).SortValuesWithRanker", "arg 1:ranker of collection.(*list_).SortValuesWithRanker");
+  ("arg 2:tokens of cdcn.(*scannerClass_).Make", "field cdcn.parser_.tokens_");
+  ("cdcn.scanner_.tokens_", "arg 2:tokens of cdcn.(*scannerClass_).Make");
+  ("collection.set_.collator_", "arg 1:collator of collection.(*setClass_).MakeWithCollator")]%string.
+
+(* Functions that write through something that is neither their receiver nor memory allocated in the
+   call.  Reviewed: the sorter works in place on the caller's Go array (that array is the caller's
+   instance cell); Queue.Fork/Split consume their input queue (a synchronised queue, in a goroutine);
+   module.Queue/Stack append to a slice that the flow-insensitive analysis cannot separate from the
+   caller's argument (in fact it is re-made before the append). *)
+Definition expected_escapes : list (String.string * String.string) := [
+  ("agent.(*sorter_).ReverseValues", "parameter 1");
+  ("agent.(*sorter_).ShuffleValues", "parameter 1");
+  ("agent.(*sorter_).SortValues", "parameter 1");
+  ("agent.(*sorter_).mergeArrays", "parameter 3");
+  ("agent.(*sorter_).sortValues", "parameter 1");
+  ("collection.(*queueClass_).Fork", "parameter 2");
+  ("collection.(*queueClass_).Split", "parameter 2");
+  ("module.Queue", "parameter 1");
+  ("module.Stack", "parameter 1")]%string.
+
+(* the generic accessors and their registries *)
+Definition expected_accessors : list (String.string * String.string) := [
+  ("agent/collator.go:collatorClass", "agent.Collator");
+  ("agent/iterator.go:iteratorClass", "agent.Iterator");
+  ("agent/sorter.go:sorterClass", "agent.Sorter");
+  ("collection/array.go:arrayClass", "collection.Array");
+  ("collection/association.go:associationClass", "collection.Association");
+  ("collection/catalog.go:catalogClass", "collection.Catalog");
+  ("collection/list.go:listClass", "collection.List");
+  ("collection/map.go:mapClass", "collection.Map");
+  ("collection/queue.go:queueClass", "collection.Queue");
+  ("collection/set.go:setClass", "collection.Set");
+  ("collection/stack.go:stackClass", "collection.Stack")]%string.
+
+(* exported package-level variables (anybody may assign them): none; the hook of the verif build *)
+Definition expected_exported_vars : list String.string := [].
+Definition expected_verif_exported_vars : list String.string := ["collection/verif_on.go:VerifHook"%string].
+
+(* ---- comparison functions ---- *)
+Fixpoint strs_eqb (a b : list String.string) : bool :=
+  match a, b with
+  | [], [] => true
+  | x :: a', y :: b' => String.eqb x y && strs_eqb a' b'
+  | _, _ => false
+  end.
+Fixpoint pairs_eqb (a b : list (String.string * String.string)) : bool :=
+  match a, b with
+  | [], [] => true
+  | (x1, x2) :: a', (y1, y2) :: b' => String.eqb x1 y1 && String.eqb x2 y2 && pairs_eqb a' b'
+  | _, _ => false
+  end.
+Definition is_nil {A} (l : list A) : bool := match l with [] => true | _ => false end.
+
+(* ---- the facts of Indep.v derived a second time, from the typed syntax trees ---- *)
+Definition field_row := (String.string * String.string * String.string)%type.
+Definition fields_of (s : String.string) : list field_row :=
+  filter (fun r : field_row => String.prefix (String.append s "."%string) (fst (fst r))) foot_fields.
+Definition kind_in (ks : list String.string) (r : field_row) : bool := existsb (String.eqb (snd (fst r))) ks.
+
+Definition static_notation_shares_formatter : bool :=
+  existsb (kind_in ["iface:cdcn.FormatterLike"; "ptr:cdcn.formatter_"; "struct:cdcn.formatter_"]%string) (fields_of "cdcn.notation_"%string).
+Definition static_notation_shares_parser : bool :=
+  existsb (kind_in ["iface:cdcn.ParserLike"; "ptr:cdcn.parser_"; "struct:cdcn.parser_"]%string) (fields_of "cdcn.notation_"%string).
+Definition static_sorter_shares_collator : bool :=
+  existsb (kind_in ["func:agent.RankingFunction"; "iface:agent.CollatorLike"; "ptr:agent.collator_"; "struct:agent.collator_"]%string)
+          (fields_of "agent.sorterClass_"%string).
+
+Definition method_row := (String.string * String.string * String.string * (list String.string * list String.string * list String.string * list String.string))%type.
+Definition m_name (m : method_row) : String.string := fst (fst (fst m)).
+Definition m_struct (m : method_row) : String.string := snd (fst (fst m)).
+Definition m_role (m : method_row) : String.string := snd (fst m).
+Definition m_writes (m : method_row) : list String.string := fst (fst (fst (snd m))).
+Definition method_writes (n : String.string) : option (list String.string) :=
+  match find (fun m => String.eqb (m_name m) n) foot_methods with Some m => Some (m_writes m) | None => None end.
+(* a public call of a collator writes (transitively, through its own methods) a field of the collator *)
+Definition static_collator_shares_depth : bool :=
+  match method_writes "agent.(*collator_).CompareValues"%string, method_writes "agent.(*collator_).RankValues"%string with
+  | Some [], Some [] => false
+  | _, _ => true
+  end.
+
+Definition accessor_row := (String.string * String.string * (bool * bool * bool * bool))%type.
+Definition accessor_ok (r : accessor_row) : bool :=
+  let '(_, _, (one_section, covers, sole, returned)) := r in one_section && covers && sole && returned.
+Definition static_registries_locked : bool :=
+  forallb accessor_ok foot_accessors &&
+  pairs_eqb (map (fun r : accessor_row => (fst (fst r), snd (fst r))) foot_accessors) expected_accessors &&
+  strs_eqb (map (fun r : accessor_row => fst (fst r)) foot_accessors) (map fst Params.registry_locked).
+
+Definition static_facts : facts :=
+  {| f_registries_locked := static_registries_locked;
+     f_notation_shares_formatter := static_notation_shares_formatter;
+     f_notation_shares_parser := static_notation_shares_parser;
+     f_sorter_shares_collator := static_sorter_shares_collator;
+     f_collator_shares_depth := static_collator_shares_depth |}.
+
+(* ---- the obligations, one boolean each (IndepStatic.v proves each [= true] by computation) ---- *)
+
+(* (a) no field of a class struct (one object per element type, shared by all instances) is written
+   outside the literal that creates the class object.
+   BREAKS WHEN: a scratch buffer / cache / counter / mutex / pool / lazily made default agent is put
+   into a ...Class_ struct and assigned, appended to, locked, address-taken or mutated by a method. *)
+Definition static_no_class_mutable : bool := is_nil foot_class_mutable.
+(* no field of an instance struct is written by a function that is not a method of that struct
+   (constructors fill the fields in the composite literal).
+   BREAKS WHEN: a constructor or another object re-initialises an instance it did not just make,
+   e.g. MakeWithRanker assigning the ranker of a sorter obtained from c.Make(). *)
+Definition static_no_foreign_writes : bool := is_nil foot_foreign_writes.
+(* (b) the references kept across calls are exactly the documented ones.
+   BREAKS WHEN: an instance or a class keeps an agent / collection / slice taken from an argument,
+   from another object's field or from a getter (a class-level collator handed to every sorter, a
+   collection handing its own agent to a derived collection), or notation_ gets state. *)
+Definition static_shared_edges_expected : bool := pairs_eqb foot_shared_edges expected_shared_edges.
+(* (c) every write of a package-level variable happens while the write lock of a package-level mutex is
+   held, every read of a variable that is written holds a lock; no exported variables.
+   BREAKS WHEN: a package-level cache / pool / once / counter is added and used, a registry is read
+   under RLock and written later, or a hook variable is exported in the normal build. *)
+Definition static_pkgvars_guarded : bool :=
+  is_nil foot_pkgvar_unguarded && is_nil foot_verif_pkgvar_unguarded &&
+  strs_eqb foot_exported_vars expected_exported_vars && strs_eqb foot_verif_exported_vars expected_verif_exported_vars &&
+  strs_eqb (map fst foot_verif_pkgvars) (map fst Params.package_vars).
+(* (d) every generic accessor has exactly one critical section that contains every use of its registry,
+   nobody else uses the registry, and the class returned is the one found in or inserted into the
+   registry inside that critical section.
+   BREAKS WHEN: the lookup moves under RLock / out of the lock (double-checked locking), the freshly
+   built class is returned without being the registered one, a second function touches the map. *)
+Definition static_accessors_disciplined : bool := static_registries_locked.
+(* (e) every method of an instance struct writes (directly, through its own methods, through its own
+   sub-objects) only fields of its own receiver - the cell CInst of Indep.v -; class methods write
+   nothing through the class; the functions that write through a parameter are the documented ones.
+   BREAKS WHEN: a method writes through a pointer / slice it got from its class or from another
+   object, or a new in-place operation on the caller's memory is added. *)
+Definition method_writes_own (m : method_row) : bool :=
+  if String.eqb (m_role m) "class"%string then is_nil (m_writes m)
+  else forallb (String.prefix (String.append (m_struct m) "."%string)) (m_writes m).
+Definition static_methods_write_own : bool :=
+  forallb method_writes_own foot_methods && negb (is_nil foot_methods) &&
+  pairs_eqb foot_escapes expected_escapes.
+(* the structural facts of Indep.v, derived from the typed syntax trees, are those of the repaired tree
+   and agree with the ones tools/genparams.py finds by regular expressions.
+   BREAKS WHEN: as [current_facts_repaired]; or the two extractions disagree. *)
+Definition facts_repaired_b (F : facts) : bool :=
+  f_registries_locked F && negb (f_notation_shares_formatter F) && negb (f_notation_shares_parser F) &&
+  negb (f_sorter_shares_collator F) && negb (f_collator_shares_depth F).
+Definition static_facts_agree : bool := facts_repaired_b static_facts && facts_eqb static_facts current_facts.
+
+Definition static_ok : bool :=
+  foot_tool_ok && static_no_class_mutable && static_no_foreign_writes && static_shared_edges_expected &&
+  static_pkgvars_guarded && static_accessors_disciplined && static_methods_write_own && static_facts_agree.
